@@ -184,7 +184,8 @@ def burst_charge(rng, k=0):
     ops += ['get 10 %d' % T1, 'get 11 %d' % T1, 'charge 12 30', 'state 12 2', 'charge 12 31', 'state 12 3',
             'get 11 %d' % T2, 'slot 1 ship -', 'charge 12 -', 'slot 1 ship 10', 'get 10 %d' % T2]
     if fleet:
-        ops += ['flrm 1 2', 'get 11 %d' % T2]
+        # removal from the wrong fleet raises and changes nothing; then the real removal
+        ops += ['charge 12 30', 'flrm 2 2', 'get 11 %d' % T2, 'get 11 %d' % T1, 'flrm 1 2', 'get 11 %d' % T2]
     return 'scen:burst', u.lines(), ops, meta_of(ops, u.attr_ids(), setup)
 
 
@@ -249,7 +250,33 @@ def retarget_reload(rng, k=0):
     return 'scen:reload', u.lines(), ops, meta_of(ops, u.attr_ids(), setup)
 
 
-SCENARIOS = [cap_moves, resist_moves, chain_over_projection, burst_charge, buff_tie, retarget_reload]
+def slot_index(rng, k=0):
+    """the slot number of an implant / booster / subsystem is itself modified by another item while the
+    item is removed and a second one of the same type slot arrives (registers keyed by a slot number)"""
+    kind, attr, cls, setname, cat = [
+        ('implant', int(AttrId.implantness), 'implant', 'implants', int(TC.implant)),
+        ('booster', int(AttrId.boosterness), 'booster', 'boosters', int(TC.implant)),
+        ('subsystem', int(AttrId.subsystem_slot), 'subsystem', 'subsystems', int(TC.subsystem))][k % 3]
+    K = 1000
+    u = U()
+    u.attr(attr)
+    u.attr(K)
+    dom = D.ship if kind == 'subsystem' else D.character
+    u.effect(2001, EC.passive, [U.mod(F.domain, dom, attr, OP.mod_add, K)])
+    u.type(3100, 50, int(TC.ship), {})
+    u.type(3500, 51, cat, {attr: 1})
+    u.type(3501, 51, int(TC.implant), {int(AttrId.implantness): 7, K: rng.choice([1, 2])}, [2001])
+    ops = base_world(1) + ['new 10 ship 3100 1 0', 'new 20 %s 3500 1 0' % cls, 'new 21 %s 3500 1 0' % cls,
+                           'new 22 implant 3501 1 0', 'slot 1 ship 10']
+    setup = len(ops)
+    ops += ['sadd 1 implants 22', 'sadd 1 %s 20' % setname, 'get 20 %d' % attr, 'srm 1 %s 20' % setname,
+            'sadd 1 %s 21' % setname, 'get 21 %d' % attr, 'srm 1 implants 22', 'sadd 1 %s 20' % setname,
+            'srm 1 %s 21' % setname]
+    classes = {20: cls, 21: cls, 22: 'implant', 10: 'ship'}
+    return 'scen:slotidx', u.lines(), ops, meta_of(ops, u.attr_ids(), setup, classes)
+
+
+SCENARIOS = [cap_moves, resist_moves, chain_over_projection, burst_charge, buff_tie, retarget_reload, slot_index]
 
 
 def scenarios(rng, tier):
